@@ -203,6 +203,30 @@ def run(chk):
         chk.bounded('frame: every argument of the marking functions and of parse_observable', list(arg_cases()), arg_check, classify=lambda c: tuple(repr(x)[:40] for x in c),
                     bound='6 marking functions x 3 call forms x 3 unsorted / repeated selector lists (list and tuple) x 2 objects; parse_observable on 3 dictionaries x custom modes x versions x 3 reference scopes')
 
+        # ---- object factories: the defaults handed to a factory stay the caller's, and what one create() call adds does not show up in the next
+        def factory_cases():
+            for how in ('constructor', 'setters', 'Environment'):
+                for single in (True, False):
+                    for append in (True, False): yield (how, single, append)
+
+        def factory_check(case):
+            how, single, append = case
+            refs = [{'source_name': 's', 'url': 'http://x'}]; marks = [TLP]
+            if how == 'constructor': f = stix2.ObjectFactory(external_references=refs, object_marking_refs=marks, list_append=append)
+            else:
+                f = stix2.ObjectFactory(list_append=append); f.set_default_external_refs(refs); f.set_default_object_marking_refs(marks)
+            maker = stix2.Environment(factory=f, store=stix2.MemoryStore()) if how == 'Environment' else f
+            r0, m0 = snapshot(refs), snapshot(marks)
+            extra = {'source_name': 'only-for-the-first', 'url': 'http://y'}; extra_m = 'marking-definition--34098fce-860f-48ae-8e50-ebd3cc5e41da'
+            try: o1 = maker.create(stix2.v21.Identity, name='a', external_references=extra if single else [extra], object_marking_refs=extra_m if single else [extra_m])
+            except (stix2.exceptions.STIXError, ValueError, TypeError): o1 = None          # (a single dictionary without list_append is not a legal list value: refused, fine)
+            o2 = maker.create(stix2.v21.Identity, name='b')
+            if snapshot(refs) != r0 or snapshot(marks) != m0:
+                return ('frame#ObjectFactory.create:default list argument', f'{how}, list_append={append}: create() with a {"single value" if single else "list"} changed the list the caller had given as default: {refs!r:.160} / {marks}', {})
+            if [e['source_name'] for e in o2.external_references] != ['s'] or list(o2.object_marking_refs) != [TLP]:
+                return ('frame#ObjectFactory.create:later objects', f'{how}, list_append={append}: an object created later carries what was given to an earlier create() only: {[e["source_name"] for e in o2.external_references]}, {list(o2.object_marking_refs)}', {})
+        chk.bounded('frame: object factory defaults', list(factory_cases()), factory_check, classify=lambda c: c, bound='3 ways of giving list defaults x single value / list override x list_append on / off')
+
         def imm_cases():
             for iname in ins:
                 o = stix2.parse(copy.deepcopy(ins[iname]), allow_custom=True)
